@@ -515,6 +515,73 @@ func (c *Ctx) NoUseAfter(fn *ssa.Function, v ssa.Value, writeSpec, why string) {
 	}
 }
 
+// DeadAfter (K10): the value passed as argument idx (receiver excluded) to a call matching spec is dead afterwards:
+// no later call of the same iteration receives it (an element unlinked from a container/list has lost its
+// neighbours; asking it for Next() ends the traversal early).
+func (c *Ctx) DeadAfter(fn *ssa.Function, spec string, idx, min int, why string) {
+	if fn == nil {
+		return
+	}
+	fnName := load.QualName(fn)
+	what := fmt.Sprintf("argument %d of %s is not used again in the same iteration", idx, spec)
+	back := BackEdges(fn)
+	sites := CallsIn(fn, spec)
+	if len(sites) < min {
+		c.Fail("floor", fnName, "K10: calls of "+spec+" present", "-", fmt.Sprintf("found %d, confirmed by hand: %d", len(sites), min))
+		return
+	}
+	for _, w := range sites {
+		c.Sites++
+		args := w.Common().Args
+		if !w.Common().IsInvoke() && w.Common().StaticCallee() != nil && w.Common().StaticCallee().Signature.Recv() != nil {
+			args = args[1:]
+		}
+		if idx >= len(args) {
+			c.Und("K10", fnName, what, c.At(w), "argument index out of range")
+			continue
+		}
+		v := Resolve(args[idx])
+		wi := instrIndex(w)
+		var bad []string
+		check := func(b *ssa.BasicBlock, from int) {
+			for i := from; i < len(b.Instrs); i++ {
+				ci, ok := b.Instrs[i].(ssa.CallInstruction)
+				if !ok {
+					continue
+				}
+				cc := ci.Common()
+				uses := cc.IsInvoke() && Resolve(cc.Value) == v
+				for _, a := range cc.Args {
+					if Resolve(a) == v {
+						uses = true
+					}
+				}
+				if uses {
+					bad = append(bad, c.At(ci)+" "+Callee(cc).Name)
+				}
+			}
+		}
+		check(w.Block(), wi+1)
+		var starts []*ssa.BasicBlock
+		for i, sb := range w.Block().Succs {
+			if !back[Edge{w.Block(), i}] {
+				starts = append(starts, sb)
+			}
+		}
+		for b := range ReachFrom(starts, back) {
+			if b == w.Block() {
+				continue
+			}
+			check(b, 0)
+		}
+		if len(bad) > 0 {
+			c.Fail("K10", fnName, what, c.At(w), "used afterwards: "+strings.Join(uniq(bad), ", ")+" ("+why+")")
+		} else {
+			c.OK("K10", fnName, what, c.At(w), why)
+		}
+	}
+}
+
 // FieldsStored lists the fields of struct type tname stored in fn (by name).
 func FieldsStored(fn *ssa.Function, tname string) map[string]ssa.Instruction {
 	out := map[string]ssa.Instruction{}
